@@ -246,6 +246,7 @@ class Guard:
         effect = "permit" if decision_str == "permit" else "deny"
         obligations_list = list(raw.get("obligations") or [])
         challenge = raw.get("challenge")
+        reason = raw.get("reason")
         allowed = decision_str == "permit"
 
         if allowed:
@@ -257,7 +258,9 @@ class Guard:
                 # Auto-deny when an obligation is not met
                 if not allowed:
                     effect = "deny"
-                    raw["reason"] = "obligation_failed"
+                    # `raw` may be the object held by the decision cache: report the
+                    # revocation on this Decision only, never write it back
+                    reason = "obligation_failed"
             except Exception:
                 # do not fail on obligation checker errors
                 logger.exception("RBACX: obligation checker failed", exc_info=True)
@@ -269,7 +272,7 @@ class Guard:
             challenge=challenge,
             rule_id=raw.get("last_rule_id") or raw.get("rule_id"),
             policy_id=raw.get("policy_id"),
-            reason=raw.get("reason"),
+            reason=reason,
         )
 
         # metrics (do not use return values; conditionally await)
